@@ -93,6 +93,17 @@ def h_keyword(n, two, strs = ('a', 'B')):
         c.check('inc-idempotent', list(again['rid']) == list(inc['rid']))
     return h
 
+def h_split_conjunction(n, how):
+    """a conjunction split over a dict filter and keywords (or two dict filters) is still one conjunction: inc = rows satisfying both, exc = all the others"""
+    def h(c):
+        d, cols, floats = table(c, n, kinds = dict(a = ['none', 'int'], b = ['none', 'int']))
+        va = c.pick('va', [None, 0, 1]); vb = c.pick('vb', [None, 0, 1])
+        pa = (lambda r: r is None) if va is None else (lambda r: in_list(r, [va])); pb = (lambda r: r is None) if vb is None else (lambda r: in_list(r, [vb]))
+        if how == 'dict+kw': inc = d.inc(dict(a = va), b = vb); exc = d.exc(dict(a = va), b = vb)
+        else: inc = d.inc(dict(a = va), dict(b = vb)); exc = d.exc(dict(a = va), dict(b = vb))
+        check_partition(c, d, cols, n, inc, exc, lambda i: X.And(pa(cols['a'][i]), pb(cols['b'][i])))
+    return h
+
 def h_dictfilter(n):
     def h(c):
         d, cols, floats = table(c, n, kinds = dict(a = CELL, b = None))
@@ -140,10 +151,11 @@ def h_regex_nonstring(n):
         c.check('find-agrees-with-inc-on-regex', (raised is None and got == sel[0]) if len(sel) == 1 else raised == 'ValueError')
     return h
 
+FIND_POOL = [None, 1, '1', 'a', 'None']            # values that print alike but differ (1 / '1', None / 'None') are different values
 def h_find(n, mode = 'kw'):
     def h(c):
-        d, cols, floats = table(c, n, pool_cells = True)
-        v = c.pick('v', [None, 1, 2, 'a', 'zz'])
+        d, cols, floats = table(c, n, pool_cells = True, pool = FIND_POOL)
+        v = c.pick('v', [None, 1, '1', 'a', 'zz'])
         sel = [i for i in range(n) if (cols['a'][i] is None if v is None else cols['a'][i] == v and cols['a'][i] is not None)]
         vals = []
         for i in sel:
@@ -183,5 +195,7 @@ def obligations(tier):
         if n <= 2 or not q: obs.append(Ob('find.%d' % n, h_find(n), setup = setup, budget_s = 300 if n < 3 else 2400, desc = 'find_b(a=v) returns the unique value or raises, %d rows' % n))
         if n <= 2:
             for mode in ('dict', 'callable'): obs.append(Ob('find.%s.%d' % (mode, n), h_find(n, mode), setup = setup, budget_s = 300, desc = 'find_b(<the condition a == v spelt as a %s>) returns the unique value among the rows inc selects or raises, %d rows' % (mode, n)))
+        if 1 <= n <= 2:
+            for how in ('dict+kw', 'dict+dict'): obs.append(Ob('split-conjunction.%s.%d' % (how, n), h_split_conjunction(n, how), setup = setup, budget_s = 300, desc = 'inc/exc(%s): the conditions form one conjunction, %d rows' % ('dict(a=..), b=..' if how == 'dict+kw' else 'dict(a=..), dict(b=..)', n)))
         if n <= 3: obs.append(Ob('regex.non-string-cells.%d' % n, h_regex_nonstring(n), setup = setup, budget_s = 300, desc = 'a regex condition never selects a cell that is not a string (pool incl. ints, floats, NaN, None whose str() would match), keyword / dict / find_ spellings, %d rows' % n))
     return obs
